@@ -209,13 +209,45 @@ impl Prop for C14 {
                 }
                 c
             }),
+            // fully degenerate: every right-hand side zero, only <= rows over non-negative variables
+            // (a slack basis at a vertex where every ratio test ties): the population in which a
+            // wrong tie-break cycles
+            3 => lin_case(LinParams { max_vars: 6, max_rows: 4, ..PARAMS }).prop_map(|mut c| {
+                for v in c.vars.iter_mut() {
+                    v.1 = Dom::NonNeg(0.0, None);
+                }
+                for r in c.rows.iter_mut() {
+                    r.rhs = 0.0;
+                    r.rel = R::Le;
+                }
+                c
+            }),
+            // coefficients of very different magnitude in one column (a big-M row next to unit rows):
+            // an elimination factor below any fixed tolerance is still an elimination. Factors are powers of two,
+            // so that scaling is exact and no two rows become parallel up to a rounding error
+            2 => (lin_case(PARAMS), proptest::collection::vec((0usize..8, prop_oneof![Just(131072.0), Just(1048576.0), Just(0.00000762939453125), Just(65536.0), Just(0.0000019073486328125)]), 1..=3)).prop_map(|(mut c, marks)| {
+                let n = c.n();
+                for (k, f) in marks {
+                    if c.rows.is_empty() || n == 0 {
+                        break;
+                    }
+                    let i = k % c.rows.len();
+                    let j = (k / 2) % n;
+                    let base = if c.rows[i].coef[j] == 0.0 { 1.0 } else { c.rows[i].coef[j] };
+                    c.rows[i].coef[j] = base * f;
+                    if f > 1.0 {
+                        c.rows[i].rhs *= f;
+                    }
+                }
+                c
+            }),
         ]
         .boxed()
     }
     fn budget(&self, tier: Tier) -> usize {
         match tier {
-            Tier::Quick => 12_000,
-            Tier::Thorough => 300_000,
+            Tier::Quick => 150_000,
+            Tier::Thorough => 6_000_000,
         }
     }
     fn fixed_cases(&self, _tier: Tier) -> Vec<LinCase> {
@@ -231,9 +263,42 @@ impl Prop for C14 {
         true
     }
     fn rule(&self) -> String {
-        "small continuous models (<=4 variables of every continuous kind, <=5 rows, integer data, zero right-hand sides forcing degenerate vertices and ratio-test ties, redundant and duplicated rows, equalities forcing two-phase starts) plus Beale's and Kuhn's cycling instances, taken through into_standard_form().into_tableau(); the canonical tableau is then stepped with Tableau::step(&[]) (up to 300 steps) and, on a clone, solved with solve_step_by_step(1000). After every step: the system is equivalent to the initial one (a spanning set of solutions of the initial system still satisfies it, basis columns are unit columns), reduced costs of basic columns are zero, the basic solution is non-negative and satisfies the initial equalities, the objective did not increase, current_value is the initial objective at the basic solution. At the end: Finished => the objective equals the exact optimum of the initial canonical system, Unbounded => the exact oracle says unbounded, solve_step_by_step agrees and stays within its limit; into_tableau's infeasible verdict is checked against the exact oracle. Non-trivial = >=3 pivots, a degenerate pivot (ratio 0), or a two-phase start. Distinct = distinct model text.".into()
+        "small continuous models (<=4 variables of every continuous kind, <=5 rows, integer data, zero right-hand sides forcing degenerate vertices and ratio-test ties, redundant and duplicated rows, equalities forcing two-phase starts; a fully degenerate class with every right-hand side zero; a class with coefficients of very different magnitude in one column) plus Beale's and Kuhn's cycling instances, taken through into_standard_form().into_tableau(); the canonical tableau is then stepped with Tableau::step(&[]) (up to 300 steps) and, on a clone, solved with solve_step_by_step(1000). After every step: the system is equivalent to the initial one (a spanning set of solutions of the initial system still satisfies it, basis columns are unit columns), reduced costs of basic columns are zero, the basic solution is non-negative and satisfies the initial equalities, the objective did not increase, current_value is the initial objective at the basic solution. At the end: Finished => the objective equals the exact optimum of the initial canonical system, Unbounded => the exact oracle says unbounded, solve_step_by_step agrees and stays within its limit; into_tableau's infeasible verdict is checked against the exact oracle. Non-trivial = >=3 pivots, a degenerate pivot (ratio 0), or a two-phase start. Distinct = distinct model text.".into()
     }
     fn check(&self, case: &LinCase) -> Outcome {
+        // recorded finding: the tableau simplex compares with an absolute tolerance of 1e-5, so a
+        // model whose numbers span many orders of magnitude gets entries that are "zero" for it
+        let class = if badly_scaled(case) { ":badly-scaled-model" } else { "" };
+        match check_inner(case) {
+            Outcome::Fail { signature, detail } => Outcome::Fail { signature: format!("{signature}{class}"), detail },
+            Outcome::Multi(v) => Outcome::Multi(v.into_iter().map(|(s, d)| (format!("{s}{class}"), d)).collect()),
+            other => other,
+        }
+    }
+}
+
+/// largest over smallest non-zero magnitude among coefficients, right-hand sides and objective >= 1e4
+fn badly_scaled(case: &LinCase) -> bool {
+    let mags: Vec<f64> = case
+        .rows
+        .iter()
+        .flat_map(|r| r.coef.iter().cloned().chain(std::iter::once(r.rhs)))
+        .chain(case.obj.iter().cloned())
+        // declared bounds become rows of the standard form
+        .chain(case.vars.iter().flat_map(|v| {
+            let (lo, hi) = v.1.bounds_f64();
+            [lo, hi].into_iter().filter(|b| b.is_finite())
+        }))
+        .chain(std::iter::once(1.0))
+        .map(f64::abs)
+        .filter(|v| *v != 0.0)
+        .collect();
+    let (lo, hi) = mags.iter().fold((f64::INFINITY, 0.0f64), |(l, h), v| (l.min(*v), h.max(*v)));
+    hi / lo >= 1e4
+}
+
+fn check_inner(case: &LinCase) -> Outcome {
+    {
         if case.sense == Sense::Satisfy || !case.is_continuous() {
             return Outcome::Skip("not a continuous min/max model".into());
         }
